@@ -59,6 +59,8 @@ type Prog struct {
 	capImm            map[*ssa.FreeVar]bool
 	stableFa          map[string]int
 	closesUnder       map[string][]guardedField
+	finalFa           map[string]bool     // fa function of a field declared final
+	FinalChecks       []*FinalCheck       // one per declared final field
 	ContractFilesUsed []string
 	MirrorUsed        []string
 }
@@ -513,6 +515,12 @@ func (p *Prog) typeByName(from *types.Package, fn *ssa.Function, s string) types
 			return tn.Type()
 		}
 	}
+	// any other type expression over universe / package-level names
+	if from != nil && p.Fset != nil {
+		if tv, err := types.Eval(p.Fset, from, token.NoPos, "("+s+")(nil)"); err == nil && tv.Type != nil {
+			return tv.Type
+		}
+	}
 	return nil
 }
 
@@ -583,6 +591,22 @@ func (p *Prog) buildGuards() {
 				p.muOwner[mfn] = muOwnerInfo{key: key, typ: nt, pkg: pk}
 			}
 		}
+		for _, fs := range ts.Final {
+			for _, f := range fs.Fields {
+				fi, ok := idx[f]
+				if !ok || st.Field(fi).Exported() {
+					fmt.Fprintf(os.Stderr, "final: %s is not an unexported field of %s\n", f, key)
+					continue
+				}
+				if p.finalFa == nil {
+					p.finalFa = map[string]bool{}
+				}
+				p.finalFa[u.fieldFn(tn.Type(), fi)] = true
+				fc := &FinalCheck{Type: key, Field: f, Tags: fs.Tags, Line: fs.Line, Pos: p.Fset.Position(st.Field(fi).Pos()).String()}
+				fc.Sites = p.finalFieldWrites(tn.Type(), fi)
+				p.FinalChecks = append(p.FinalChecks, fc)
+			}
+		}
 		for f, mu := range ts.Guarded {
 			fi, ok1 := idx[f]
 			mi, ok2 := idx[mu]
@@ -606,4 +630,105 @@ type axTrigger struct {
 	v    string
 	body Expr
 	id   int
+}
+
+// FinalCheck is the module-wide obligation behind a `final` field: every store
+// to the field (or to the whole struct, or any use of the field's address other
+// than a load) happens on an object the storing function allocated itself.
+type FinalCheck struct {
+	Type, Field string
+	Tags        []string
+	Line        int
+	Pos         string
+	Sites       []string // offending sites (empty: holds)
+}
+
+func (p *Prog) finalFieldWrites(T types.Type, fi int) []string {
+	var bad []string
+	var ownAlloc func(v ssa.Value, depth int) bool
+	ownAlloc = func(v ssa.Value, depth int) bool {
+		if depth > 4 {
+			return false
+		}
+		switch x := v.(type) {
+		case *ssa.Alloc:
+			return types.Identical(derefType(x.Type()), T)
+		case *ssa.UnOp:
+			// load of a local variable cell that only ever holds own allocations
+			cell, ok := x.X.(*ssa.Alloc)
+			if x.Op != token.MUL || !ok || cell.Referrers() == nil {
+				return false
+			}
+			for _, r := range *cell.Referrers() {
+				switch rr := r.(type) {
+				case *ssa.Store:
+					if rr.Addr == ssa.Value(cell) && !ownAlloc(rr.Val, depth+1) {
+						return false
+					}
+					if rr.Val == ssa.Value(cell) {
+						return false
+					}
+				case *ssa.MakeClosure:
+					fn := rr.Fn.(*ssa.Function)
+					for i, b := range rr.Bindings {
+						if b == ssa.Value(cell) && freeVarWritten(fn, fn.FreeVars[i]) {
+							return false
+						}
+					}
+				case *ssa.UnOp, *ssa.DebugRef:
+				default:
+					return false
+				}
+			}
+			return true
+		}
+		return false
+	}
+	seen := map[*ssa.Function]bool{}
+	var visit func(f *ssa.Function)
+	visit = func(f *ssa.Function) {
+		if f == nil || seen[f] {
+			return
+		}
+		seen[f] = true
+		for _, b := range f.Blocks {
+			for _, in := range b.Instrs {
+				switch x := in.(type) {
+				case *ssa.Store:
+					if pt, ok := x.Addr.Type().Underlying().(*types.Pointer); ok && types.Identical(pt.Elem(), T) && !ownAlloc(x.Addr, 0) {
+						bad = append(bad, p.Fset.Position(x.Pos()).String()+": whole-struct store")
+					}
+				case *ssa.FieldAddr:
+					pt, ok := x.X.Type().Underlying().(*types.Pointer)
+					if !ok || !types.Identical(pt.Elem(), T) || x.Field != fi || x.Referrers() == nil {
+						continue
+					}
+					for _, r := range *x.Referrers() {
+						switch rr := r.(type) {
+						case *ssa.Store:
+							if rr.Addr == ssa.Value(x) && !ownAlloc(x.X, 0) {
+								bad = append(bad, p.Fset.Position(rr.Pos()).String()+": store outside the constructing function")
+							}
+							if rr.Val == ssa.Value(x) {
+								bad = append(bad, p.Fset.Position(rr.Pos()).String()+": address of the field is stored")
+							}
+						case *ssa.UnOp, *ssa.DebugRef:
+						default:
+							bad = append(bad, p.Fset.Position(r.Pos()).String()+": address of the field escapes")
+						}
+					}
+				}
+			}
+		}
+		for _, af := range f.AnonFuncs {
+			visit(af)
+		}
+	}
+	for _, f := range p.Funcs {
+		if f.Pkg != nil && strings.HasPrefix(f.Pkg.Pkg.Path(), modulePath) {
+			visit(f)
+		}
+	}
+	sort.Strings(bad)
+	return bad
 }
